@@ -1,14 +1,18 @@
 #!/bin/sh
-# usage: verify_seed.sh <worktree>   confirm a seeded change: tests still pass, demo fails with it and passes without it
+# usage: verify_seed.sh <worktree>   confirm a seeded change from its patch.diff alone:
+# tests still pass with it, demo fails with it and passes without it. (No git stash: refs/stash is shared by worktrees.)
 W="$1"; cd "$W" || exit 2
 echo "== $W"
-git diff -- . ':!SEED' > /tmp/vs.diff
-if ! diff -q /tmp/vs.diff SEED/patch.diff >/dev/null 2>&1; then echo "NOTE: working-tree diff differs from SEED/patch.diff (may be whitespace)"; fi
+git checkout -q -- . 2>/dev/null
+git apply SEED/patch.diff || { echo "patch.diff does not apply to a clean checkout"; exit 2; }
 T=$(cargo test --workspace --no-fail-fast --offline 2>&1 | grep "^test result" | awk '{p+=$4; f+=$6} END {print p" passed "f" failed"}')
 echo "tests with change: $T"
 sh SEED/demo.sh > /tmp/vs_with.log 2>&1; A=$?
-git stash push -q -- . ':!SEED' 
+git checkout -q -- . 2>/dev/null
+git apply -R SEED/patch.diff 2>/dev/null
+git checkout -q -- .
 sh SEED/demo.sh > /tmp/vs_without.log 2>&1; B=$?
-git stash pop -q
+git checkout -q -- . 2>/dev/null
+git apply SEED/patch.diff
 echo "demo with change: exit $A ; without: exit $B"
 tail -3 /tmp/vs_with.log | cut -c1-200
